@@ -543,6 +543,28 @@ fn tiny_time_scale() -> Option<String> {
     None
 }
 
+/// C09 / C08: multiplying an event function by a positive constant does not move its roots: the reported event time must not
+/// depend on the magnitude of the event function
+fn event_function_scale() -> Option<String> {
+    struct Ramp { scale: f64 }   // y' = 1; event: scale * (y - 0.505)
+    impl IVP for Ramp {
+        fn ode(&self, _t: f64, _y: &[f64], d: &mut [f64]) { d[0] = 1.0; }
+        fn n_events(&self) -> usize { 1 }
+        fn events(&self, _t: f64, y: &[f64], out: &mut [f64]) { out[0] = self.scale * (y[0] - 0.505); }
+    }
+    for m in [Method::RK4, Method::DOPRI5, Method::RADAU] {
+        for scale in [1.0, 1e-6, 1e-10, 1e-13, 1e-16] {
+            if let Ok(s) = solve_ivp(&Ramp { scale }, 0.0, 1.0, &[0.0], Options::builder().method(m.clone()).build()) {
+                let te = s.t_events[0].clone();
+                if te.len() != 1 || (te[0] - 0.505).abs() > 1e-9 {
+                    return Some(format!("{:?}, y' = 1 on [0, 1], event function {:e} * (y - 0.505): reported event times {:?} (the root is t = 0.505)", m, scale, te));
+                }
+            }
+        }
+    }
+    None
+}
+
 fn main() {
     let which = std::env::args().nth(1).unwrap_or_default();
     let r = match which.as_str() {
@@ -553,6 +575,7 @@ fn main() {
         "default_mass" => default_mass(),
         "matrix_dense_model" => matrix_dense_model(),
         "lu_small" => lu_small(),
+        "event_function_scale" => event_function_scale(),
         "tiny_time_scale" => tiny_time_scale(),
         "brent_stays_in_bracket" => brent_stays_in_bracket(),
         "dense_end_points" => dense_end_points(),
